@@ -1,6 +1,6 @@
 (* C17 -- No input can crash or wedge a read. Property theorems only (the model-level half; signals,
    unsafe code and the kernel are outside the model: see the junk stream). *)
-From RL Require Import UData LineBuffer Editor EditorRun ProgressProofs DecoderProofs UndoEditor.
+From RL Require Import UData LineBuffer KillRing Editor EditorRun ProgressProofs DecoderProofs UndoEditor NoPanic.
 
 (* the byte decoder is total, for EVERY character stream and chunking, both timeout settings: it yields a
    key having consumed at least one character, or reports the end of the input / an undecodable byte;
@@ -50,6 +50,27 @@ Theorem C17_undo_never_panics :
   I s -> exists s', execute U cfg (CUndo n) s = EOk Proceed s' /\ I s'.
 Proof. exact undo_command_total. Qed.
 Print Assumptions C17_undo_never_panics.
+
+(* NO COMMAND PANICS. J s: the cursor is on a character boundary, the undo stack is a valid edit script to the
+   current text, the kill ring is consistent, the saved line is valid. From any such state, executing ANY command --
+   every motion, kill, yank, transposition, case change, indent, history move and search, undo, accept, every
+   Movement / count / word definition -- never reaches a Panic of the model (no slice off a character boundary,
+   no arithmetic underflow, no unwrap of None, no unreachable!()) and leaves a state satisfying J again.
+   A yank-pop additionally needs what the main loop guarantees (commands in between reset the ring): the yank
+   the ring remembers still ends at the cursor. *)
+Theorem C17_execute_never_panics :
+  forall (U : UData) (cfg : config) (c : cmd) (s : est),
+  J s -> (c = CYankPop -> yank_ok s) ->
+  match execute U cfg c s with EPanic => False | EOk _ s' => J s' | _ => True end.
+Proof. exact execute_never_panics. Qed.
+Print Assumptions C17_execute_never_panics.
+
+(* the state every read starts from satisfies J *)
+Theorem C17_initial_state_ok :
+  forall (U : UData) (cfg : config) prompt history kr inp,
+  kr_inv kr -> J (initial_state U cfg prompt history (kr_reset kr) inp).
+Proof. exact initial_J. Qed.
+Print Assumptions C17_initial_state_ok.
 
 (* non-vacuity: junk -- ESC ESC ESC, a truncated CSI, an undecodable byte -- ends the read with an error *)
 Example C17_example :
